@@ -49,10 +49,10 @@
 #define VP_K 2              /* appends (sequence mode) */
 #endif
 #ifndef VP_MAXSZ
-#define VP_MAXSZ 200000
+#define VP_MAXSZ 140000       /* > 2 * 65536: reaches the unbuffered path from any fill level */
 #endif
 #ifndef VP_EMAX
-#define VP_EMAX 1000000     /* bytes accepted before the step (inductive mode) */
+#define VP_EMAX 1000        /* bytes accepted before the step (inductive mode); only differences matter */
 #endif
 #if VP_OP == 0
 #  define VP_TOTAL (VP_S0 + VP_S1 + VP_S2 + 1)
@@ -74,6 +74,35 @@
 #if LDB_WRITE_BUFFER != VP_WBUF
 #  error "model constant VP_WBUF differs from LDB_WRITE_BUFFER"
 #endif
+
+/* ---- allocator: the 65560-byte file object is ONE static object (its 64 KiB
+   array is then a constant the solver never sees; a malloc'ed one costs 524288
+   SAT variables per copy); everything else (dirname) is malloc -------------- */
+static struct ldb_wfile_s vp_wfile_obj;
+static int vp_wfile_obj_used, vp_wfile_obj_freed;
+
+void *
+ldb_malloc(size_t size) {
+  void *p;
+  if (size == sizeof(struct ldb_wfile_s)) {
+    VP_ASSERT(!vp_wfile_obj_used, "vp-model: one writable file per run");
+    vp_wfile_obj_used = 1;
+    return &vp_wfile_obj;
+  }
+  p = malloc(size);
+  VP_ASSUME(p != NULL);
+  return p;
+}
+
+void
+ldb_free(void *ptr) {
+  if (ptr == (void *)&vp_wfile_obj) {
+    vp_wfile_obj_freed++;
+    return;
+  }
+  if (ptr != NULL)
+    free(ptr);
+}
 
 struct vp_namecase { const char *name; int manifest; const char *dir; };
 
@@ -228,6 +257,7 @@ vp_do_destroy(void) {
   vp_begin_call();
   ldb_wfile_destroy(vp_wf);
   VP_ASSERT(vp_nopen == 0, "destroy leaves no descriptor open");
+  VP_ASSERT(vp_wfile_obj_freed == 1, "destroy frees the object once");
   VP_ASSERT(vp_fds[0].closes == 1, "the file's descriptor is closed exactly once");
   for (i = 1; i < VP_MAXFD; i++)
     VP_ASSERT(!vp_fds[i].isopen && vp_fds[i].closes <= 1, "no other descriptor is left open or closed twice");
